@@ -21,7 +21,7 @@
 From Common Require Import Bytes Blake2b.
 From Trie Require Spec.
 From Trie Require Model Encode.
-From C03 Require Import Model ModelY Proofs ProofsY Main MainX MainY ViewPure PureAll.
+From C03 Require Import Model ModelY Proofs ProofsY Main MainX MainY ViewPure PureAll PureAllX.
 
 (* No step of a fork history changes what is seen through any handle other than the one it
    mutates; steps that mutate no handle (Snapshot, SetVersion — raising the version included —,
@@ -130,8 +130,9 @@ Proof. exact child_hist_nonvacuous. Qed.
    Proof: the heap operations compute the pure ones on the erased tree (InsertPure.insert_spec_er,
    DeletePure.delete_spec_er / clear_prefix_spec_er / handle_deletion_spec_er), reads and encoding
    of the heap tree are those of the erased tree (ViewPure).
-   Still excluded (hence _partial): ClearPrefixLimit steps ([xstep] histories). *)
-Theorem C03_pure_agrees_partial :
+   This is the statement for histories without ClearPrefixLimit (no further hypothesis);
+   C03_pure_agrees below covers the whole mutating interface. *)
+Theorem C03_pure_agrees_core :
   forall (H : list byte -> list byte) (hist : list step),
   frozen_parents hist = true ->
   forall j t pv pu, nth_error (prun hist) j = Some (t, pv, pu) ->
@@ -139,7 +140,33 @@ Theorem C03_pure_agrees_partial :
             = Some (h, default_entries (Trie.Model.trie_entries t))
             /\ (pu = true -> h = Trie.Encode.trie_root H (ver_of pv) t).
 Proof. exact pure_agrees. Qed.
-Print Assumptions C03_pure_agrees_partial.
+Print Assumptions C03_pure_agrees_core.
+
+(* The whole mutating interface: histories that also contain ClearPrefixLimit steps (any prefix,
+   any limit), replayed on the pure side with Trie.Model.trie_clear_prefix_limit
+   (LimitPure.dnl_spec_er / clear_limit_spec_er: deleteNodesLimit's loop and clearPrefixLimitAtNode
+   compute the pure functions on the erased tree).  No operation is excluded.  Proviso [xnopanic]:
+   no ClearPrefixLimit step of the history makes the model report the Go panic "got branch with all
+   nil children" (deleteNodesLimit reaching a branch without children — impossible on a canonical
+   trie; the model then leaves the state unchanged, the pure function has no such case). *)
+Theorem C03_pure_agrees :
+  forall (H : list byte -> list byte) (hist : list xstep),
+  xfrozen_parents hist = true -> xnopanic H init_state hist ->
+  forall j t pv pu, nth_error (pxrun hist) j = Some (t, pv, pu) ->
+  exists h, view H true (xrun H true true hist init_state) j
+            = Some (h, default_entries (Trie.Model.trie_entries t))
+            /\ (pu = true -> h = Trie.Encode.trie_root H (ver_of pv) t).
+Proof. exact pure_agrees_all. Qed.
+Print Assumptions C03_pure_agrees.
+
+(* non-vacuity: the ClearPrefixLimit history of C03_limit_nonvacuous satisfies both hypotheses; the
+   pure contents of its three handles *)
+Example C03_pure_agrees_limit_nonvacuous :
+  xfrozen_parents limit_hist = true /\ xnopanic blake2b_256 init_state limit_hist
+  /\ map (fun x => map fst (default_entries (Trie.Model.trie_entries (fst (fst x))))) (pxrun limit_hist)
+     = [[[n2b 18; n2b 1]; [n2b 18; n2b 18]; [n2b 18; n2b 31]; [n2b 32]];
+        [[n2b 18; n2b 31]; [n2b 32]]; [[n2b 32]]].
+Proof. vm_compute. repeat split; try reflexivity; intro E; discriminate E. Qed.
 
 (* non-vacuity: Put, Delete, ClearPrefix, a version upgrade on a snapshot; three handles, their pure
    contents, and which of them still have uniform flags *)
